@@ -2,7 +2,10 @@
 (***************************************************************************)
 (* B2: validates traces recorded from real raft.RawNodes (raftsim random   *)
 (* -nodes -1 -msgs: 3 voters, no membership change, no compaction, no      *)
-(* PreVote/CheckQuorum) against EtcdRaft.tla.  Every trace line must be    *)
+(* CheckQuorum; profiles n3-spec* without PreVote -> TraceEtcdRaft.cfg /   *)
+(* _one.cfg, profiles n3-spec-prevote* with raft.Config.PreVote = true ->  *)
+(* TraceEtcdRaft_prevote.cfg / _prevote_one.cfg, which set PreVote = TRUE) *)
+(* against EtcdRaft.tla.  Every trace line must be                         *)
 (* explained by the corresponding action of the specification, and after   *)
 (* it the logged projection of every node and the logged bag of in-flight  *)
 (* messages must equal the specification state.  (The B2 profiles of       *)
